@@ -107,16 +107,32 @@ def representatives(points, lo=None, hi=None):
 
 def outcome(summary):
     """The exit taken when all guards fold: ('return', value) / ('raise', exc) / ('undecided', exits)."""
+    first = None
     for ex in summary.exits:
         g = tm.land(list(ex.guard))
+        if g is False:
+            continue
+        if first is not None and not _same_exit(first, ex):
+            return ("undecided", first)
+        if first is None:
+            first = ex
         if g is True:
             if ex.kind == "return":
                 return ("return", ex.value)
             return ("raise", ex.exc)
-        if g is False:
-            continue
-        return ("undecided", ex)
+    if first is not None:
+        return ("undecided", first)
     return ("falloff", None)
+
+
+def _same_exit(a, b):
+    """Two exits that end the call the same way: both raise, or both return the same value. An undecided guard in front of an
+    exit does not matter when whatever comes after it ends the same way (`try: table[k] / except KeyError: raise ValueError`
+    followed by the definite KeyError flow)."""
+    if a.kind != b.kind:
+        return False
+    return a.kind == "raise" or tm.veq(tm.freeze(a.value) if isinstance(a.value, (list, tuple, dict)) else a.value,
+                                       tm.freeze(b.value) if isinstance(b.value, (list, tuple, dict)) else b.value)
 
 
 def exit_has_fact(ex, fact):
@@ -595,13 +611,19 @@ def raising_handlers(fnode):
 def strict_outcome(summary):
     """For fully scripted scenarios: the first exit whose guard is not False decides; if that guard is not True the scenario
     asked the code a question the script does not answer -- ("undecided", that guard)."""
+    first = None
     for ex in summary.exits:
         g = tm.land(list(ex.guard))
         if g is False:
             continue
+        if first is not None and not _same_exit(first[0], ex):
+            return ("undecided", first[1])
+        if first is None:
+            first = (ex, g)
         if g is True:
             return (ex.kind, ex.value if ex.kind == "return" else ex.exc)
-        return ("undecided", g)
+    if first is not None:
+        return ("undecided", first[1])
     return ("falloff", None)
 
 
